@@ -192,10 +192,15 @@ class CivilOracle:
         return ('?%d' % len(shows), 0, 0, 0)
 
 
-def civil_blocks(chk, zones, scale, op='mt'):
+def civil_blocks(chk, zones, scale, op='mt', shuffle_too=False):
+    """per zone: the civil probes in sorted order and (shuffle_too) once more in random order, so that the
+    lookups run from many different hidden hint states"""
     blocks = []; meta = []
     for i, zn in enumerate(zones):
         cs = Z.civil_probes(zn, chk.rng, n_random=40 if scale == 'quick' else 300)
+        if shuffle_too:
+            sh = list(cs); chk.rng.shuffle(sh)
+            cs = cs + sh
         blocks.append([load_line(i, zn)] + ['%s %s %s' % (op, zid(i), C.fmt(c)) for c in cs]); meta.append(cs)
     return blocks, meta
 
@@ -207,7 +212,7 @@ def run_C02(chk):
     if exe is None or not getattr(chk, 'driver_ok', False):
         return chk.finish()
     zones = pick_corpus(chk, scale)
-    blocks, meta = civil_blocks(chk, zones, scale)
+    blocks, meta = civil_blocks(chk, zones, scale, shuffle_too=True)
     mo, io = run_blocks(chk, exe, blocks, 'civil-lookup')
     note_mismatches(chk, blocks, mo, io, 'civil-lookup')
     good = 0
